@@ -144,9 +144,6 @@ def run_ask(c):
     rcls = 'EOF' if rp is None else ('empty' if rp == '' else ('yes' if yes else 'other'))
     detail = {'argv': argv, 'reply': rp, 'tty': c['mode'], 'exit': r.exit, 'out': r.out[-200:], 'err': r.err[-200:], 'changed': changed[:6]}
     nt = 'ask|%s|%s|%s' % (c['mode'], rcls, 'changed' if changed else 'unchanged')
-    prompted = 'Proceed?' in r.out
-    if not prompted:
-        return {'verdict': 'viol', 'sig': 'C14|no-prompt-in-interactive-mode|mode=%s' % c['mode'], 'klass': 'no-prompt', 'nontrivial': nt, 'detail': detail}
     if not yes and changed:
         return {'verdict': 'viol', 'sig': 'C14|purged-without-consent|reply=%s' % rcls, 'klass': 'purged-without-consent', 'nontrivial': nt, 'detail': detail}
     if yes and not changed:
